@@ -16,6 +16,7 @@ import (
 	"os"
 	"os/exec"
 	"strconv"
+	"sync/atomic"
 	"time"
 
 	"simrt"
@@ -83,7 +84,13 @@ func execute(d *RunDesc) *RunResult {
 
 const simDeadlock = "SIM-DEADLOCK: the operation waits for a lock that only itself, or tasks that wait for it, could release"
 
-var watchdogCh = make(chan uint64, 1)
+// progress markers for the watchdog (set at the start of every run)
+var wdRun, wdEpoch uint64
+
+func watchdogProgress(run uint64) {
+	atomic.StoreUint64(&wdRun, run)
+	atomic.AddUint64(&wdEpoch, 1)
+}
 
 // startWatchdog: wall-clock guard against hangs (a task blocked in something the
 // shims do not cover, an endless loop).  Harness trouble, never a violation.
@@ -91,19 +98,25 @@ var watchdogCh = make(chan uint64, 1)
 // into a run.
 func startWatchdog(limit time.Duration) {
 	go func() {
-		var cur uint64
-		t := time.NewTimer(limit)
+		// Counts one-second ticks instead of comparing clock readings: when the
+		// whole machine is frozen for a while (a VM snapshot, a suspended container)
+		// a single tick merely arrives late, whereas a deadline would be overrun at
+		// once although the run made no step it could have made.
+		ticks := 0
+		need := int(limit / time.Second)
+		if need < 5 {
+			need = 5
+		}
+		var lastEpoch uint64
 		for {
-			select {
-			case cur = <-watchdogCh:
-				if !t.Stop() {
-					select {
-					case <-t.C:
-					default:
-					}
-				}
-				t.Reset(limit)
-			case <-t.C:
+			time.Sleep(time.Second)
+			if e := atomic.LoadUint64(&wdEpoch); e != lastEpoch {
+				lastEpoch, ticks = e, 0
+				continue
+			}
+			ticks++
+			cur := atomic.LoadUint64(&wdRun)
+			if ticks > need {
 				fmt.Printf("{\"watchdog\":%d}\n", cur)
 				fmt.Fprintf(os.Stderr, "WATCHDOG: run %d made no progress for %v\n", cur, limit)
 				os.Exit(3)
@@ -167,7 +180,7 @@ func main() {
 		out := bufio.NewWriterSize(os.Stdout, 1<<16)
 		enc := json.NewEncoder(out)
 		for i := *from; i < *from+*n; i++ {
-			watchdogCh <- i
+			watchdogProgress(i)
 			fmt.Fprintf(out, "{\"begin\":%d}\n", i)
 			out.Flush()
 			d := generate(*prop, *tier, *base, i)
